@@ -59,7 +59,8 @@ def cases(rng, tier):
             dists = (DIST_QUICK if not med else [63, 64, 126, 127, 128, 255, 256]) + [rng.randint(1, 300), rng.randint(1, 300)]
         out.append(dict(kind='soak-wrap', kernel=k, seed=rng.randint(0, 10 ** 6), big=big, smalls=smalls, dists=dists,
                         timeout=240, foundation=__name__))
-    for k in names:           # cheap (a handful of calls): every function of the property, every run
+    mnames = names if (len(names) <= 30 or tier == 'thorough') else rng.sample(names, 30)
+    for k in mnames:          # cheap (a handful of calls): every function of the property, every run (a sample of 30 for C08)
         out.append(dict(kind='soak-mutate', kernel=k, seed=rng.randint(0, 10 ** 6), size=rng.choice([12, 17, 24, 33]),
                         rounds=3, timeout=120, foundation=__name__))
     return out
@@ -83,12 +84,13 @@ def _run(case):
     ncalls = 0
     if case['kind'] == 'soak-wrap':
         mk = lambda sz, s: c12.Inputs(case['seed'] + s, sz, False)
+        # the small inputs first, in the fresh interpreter: their reference results have no history at all
+        small_ref = {i: c12._call(fn, mk(sz, 1 + i)) for i, sz in enumerate(case['smalls'])}
         first = c12._call(fn, mk(case['big'], 0))
         again = c12._call(fn, mk(case['big'], 0))
         if first != again:        # not deterministic even without history: nothing to conclude here (C08/C10 judge that)
             return dict(findings=[dict(kind='model', key=f'history:nondeterministic:{name}', detail={})], nontrivial=False,
                         sig=None, tags=dict(stage='soak', kind='wrap', outcome='nondeterministic'))
-        small_ref = {}
         j = 0
         for D in case['dists']:
             for _ in range(D - 1 if D > 1 else 0):
